@@ -4,6 +4,7 @@ import (
 	"fmt"
 	"go/token"
 	"go/types"
+	"regexp"
 	"sort"
 	"strings"
 
@@ -55,7 +56,7 @@ var errDropTable = map[string]string{
 	"json.Unescape|json.(decoder).parseStringUnquote":            "API has no error result; malformed input yields the documented best-effort result",
 	"proto.sliceEncodeFuncOf|proto.encodeTag":                    "pre-encoding of the tag into a buffer sized by sizeOfTag of the same arguments",
 	"proto.mapEncodeFuncOf|proto.encodeTag":                      "pre-encoding of one-byte tags (field numbers 1 and 2) and of the map tag into a buffer sized by sizeOfTag of the same arguments",
-	"json.constructMapCodec$1$1|invoke MarshalText":              "sort comparator: the same MarshalText is invoked again by the key encoder, which reports its error",
+	"json.constructMapCodec$$|invoke MarshalText":                "sort comparator: the same MarshalText is invoked again by the key encoder, which reports its error",
 }
 
 type errState map[ssa.Value]byte // 1 = unchecked (U), 2 = pending non-nil (N)
@@ -314,10 +315,10 @@ func (a *errAnalysis) function(b *ob, fn *ssa.Function, props []string) {
 					pk = shortName(fn.Parent()) + "|" + short
 				}
 				switch {
-				case errDropTable[tk] != "":
-					b.addP(props, core.Discharged, si.key, si.pos, "discarded by contract: "+errDropTable[tk])
-				case errDropTable[pk] != "":
-					b.addP(props, core.Discharged, si.key, si.pos, "discarded by contract: "+errDropTable[pk])
+				case errDropLookup(tk) != "":
+					b.addP(props, core.Discharged, si.key, si.pos, "discarded by contract: "+errDropLookup(tk))
+				case errDropLookup(pk) != "":
+					b.addP(props, core.Discharged, si.key, si.pos, "discarded by contract: "+errDropLookup(pk))
 				case a.varintIntoLocalArray(call):
 					b.addP(props, core.Discharged, si.key, si.pos, "encodeVarint into a local array of at least 10 bytes cannot fail")
 				default:
@@ -542,7 +543,7 @@ func (a *errAnalysis) function(b *ob, fn *ssa.Function, props []string) {
 		si := site[v]
 		if msg, bad := violations[v]; bad {
 			tk := name + "|" + si.callee
-			if why := errDropTable[tk]; why != "" {
+			if why := errDropLookup(tk); why != "" {
 				b.addP(props, core.Discharged, si.key, si.pos, "by contract: "+why)
 				continue
 			}
@@ -606,4 +607,15 @@ func (a *errAnalysis) varintIntoLocalArray(call *ssa.Call) bool {
 		lo = k
 	}
 	return arr.Len()-lo >= 10
+}
+
+var closureIndex = regexp.MustCompile(`\$[0-9]+`)
+
+// errDropLookup: table lookup by exact site, then with the indices of anonymous functions
+// erased (the numbering of closures shifts when an unrelated closure is added before them).
+func errDropLookup(k string) string {
+	if v := errDropTable[k]; v != "" {
+		return v
+	}
+	return errDropTable[closureIndex.ReplaceAllString(k, "$")]
 }
